@@ -135,6 +135,7 @@ def run(tier):
     jobs = min(16, vlib.NCPU) if tier == "thorough" else min(10, vlib.NCPU)
     total_prog = total_calls = refused = 0
     exhaustive = True
+    tool_errors = []
     for i, sc in enumerate(TIERS[tier]):
         tag = f"{tier}{i}"
         table, tres = gen_table(ck, sc, tag)
@@ -145,9 +146,15 @@ def run(tier):
             if nprog != expect:
                 raise vlib.ToolError(f"{sc['label']}: TLC printed {nprog} programs, expected {expect}")
             exhaustive = exhaustive and pres_["finished"] and tres["finished"]
-        summ = replay_programs(ck, table, programs, sc["label"], jobs)
-        if summ["programs"] != nprog * len(sc["modes"]):
-            raise vlib.ToolError(f"{sc['label']}: {summ['programs']} program runs for {nprog} programs x {len(sc['modes'])} modes")
+        try:
+            summ = replay_programs(ck, table, programs, sc["label"], jobs)
+            if summ["programs"] != nprog * len(sc["modes"]):
+                raise vlib.ToolError(f"{sc['label']}: {summ['programs']} program runs for {nprog} programs x {len(sc['modes'])} modes")
+        except vlib.ToolError as e:
+            # a scenario that could not be run is never a verdict, but it must not hide what the others found
+            tool_errors.append(f"{sc['label']}: {e}")
+            exhaustive = False
+            continue
         total_prog += summ["programs"]
         total_calls += summ["calls"]
         refused += summ["programs_with_refused_call"]
@@ -160,6 +167,11 @@ def run(tier):
                     ck.cov["samples"].append(json.loads(line))
         if os.path.getsize(programs) > 100_000_000:
             os.remove(programs)
+    if tool_errors:
+        ck.notes.append({"tool_errors": tool_errors})
+        if not ck.violations:
+            raise vlib.ToolError("; ".join(tool_errors))
+        vlib.log("TOOL-ERROR in a scenario (violations found elsewhere are reported): " + "; ".join(tool_errors))
     ck.cov["traces_validated_against_impl"] = total_prog
     ck.cov["evaluations"] = total_calls
     ck.cov["distinct_nontrivial"] = refused
